@@ -327,6 +327,16 @@ def gen_history_plans(ctx):
         for _ in range(2):
             events.append({"sender": rng.randrange(len(senders)), "key": "late", "fc": min(base + rng.randrange(1, 40), 0xFFFFFFFF), "lvl": rng.choice([0, 5, 6]), "ft": rng.choice([0, 1])})
         plans.append({"cfg": cfg, "keys": keys, "rogue": rogue, "late": late, "senders": senders, "events": events})
+    # many distinct senders between a frame and its replay (the counter table must not forget a silent device):
+    # victim frame, one authentic frame from each of N other devices under the same key, replay of the victim frame
+    for nothers in ([70, 130, 64, 65, 200] if ctx.thorough else [70]):
+        k, sq = rb(rng, 16), rng.randrange(256)
+        senders = [rb(rng, 8) for _ in range(nothers + 1)]
+        events = ([{"sender": 0, "key": 0, "fc": 10, "lvl": 5, "ft": 0, "n": 1}]
+                  + [{"sender": j, "key": 0, "fc": rng.choice([0, 1, 7]), "lvl": 5, "ft": rng.choice([0, 1]), "n": rng.choice([0, 1, 2])} for j in range(1, nothers + 1)]
+                  + [{"sender": 0, "key": 0, "fc": 11, "lvl": 5, "ft": 0, "n": 2}])
+        plans.append({"cfg": {"level": 5, "all_fresh": True, "secure_all": False, "keys": [[k.hex(), sq]]}, "keys": [(k, sq)],
+                      "rogue": (rb(rng, 16), sq), "late": (rb(rng, 16), (sq + 1) % 256), "senders": senders, "events": events, "many": nothers})
     return plans
 
 
@@ -336,7 +346,7 @@ def plan_enc_cases(rng, plan):
     for ev in plan["events"]:
         key, seq = plan["rogue"] if ev["key"] == "rogue" else plan["late"] if ev["key"] == "late" else plan["keys"][ev["key"]]
         f = gen_secured(rng, "nwk", lvl=ev["lvl"], kt=1, ft=ev["ft"], fc=ev["fc"], src=plan["senders"][ev["sender"]],
-                        kseq=ev.get("kseq", seq), n=rng.choice([0, 1, 2, 5, 20]), rich=False)
+                        kseq=ev.get("kseq", seq), n=ev.get("n", rng.choice([0, 1, 2, 5, 20])), rich=False)
         M = M_OF[f.lvl]
         if f.lvl == 0:
             g = Fr("nwk", f.low, f.pre, 0, 1, 0, f.fc, f.src, f.kseq, f.payload + rb(rng, M), b"")
@@ -353,6 +363,10 @@ def plan_schedule(rng, plan, enc_frames):
     """delivery schedule: genuine frames in order with replays, reorderings, tampered and unsecured frames.
     Each entry: (frame hex, kind, event index or None)"""
     idx = list(range(len(enc_frames)))
+    if plan.get("many"):
+        n = plan["many"]
+        return ([(enc_frames[0], "genuine", 0)] + [(enc_frames[i], "genuine", i) for i in range(1, n + 1)]
+                + [(enc_frames[0], "replay", 0), (enc_frames[n + 1], "genuine", n + 1), (enc_frames[1], "replay", 1), (enc_frames[0], "old", 0)])
     sched = []
     for i in idx:
         sched.append((enc_frames[i], "genuine", i))
@@ -423,6 +437,8 @@ def gen_aps_plans(ctx):
         kps = [[None, kpre.hex()], [1, k1.hex()]] + ([[2, k2.hex()]] if hi % 3 else []) + ([[1, rb(rng, 16).hex()]] if hi % 2 else [])
         if hi % 5 == 4:
             kps = [kps[1], kps[0]] + kps[2:]
+        if hi % 4 == 1:       # a wrong candidate key for sender 1 BEFORE the right one: the same NSDU object is tried under both
+            kps = [[1, rb(rng, 16).hex()]] + kps
         events = []
         for _ in range(rng.randrange(4, 9)):
             who = rng.choice([0, 0, 1, 2])
@@ -538,7 +554,7 @@ def coq_ktables(kt):
                   for seq, key, t in kt])
 
 
-def coq_history(cfg, sched, steps):
+def coq_history(cfg, sched, steps, sparse=False):
     mats = clist(["(mkMat %d %s [])" % (s, cbytes(bytes.fromhex(k))) for k, s in cfg["keys"]])
     st = "((mkNwk %d %s %s %s), 0)" % (cfg["level"], cbool(cfg["all_fresh"]), cbool(cfg["secure_all"]), mats)
     items = []
@@ -546,7 +562,7 @@ def coq_history(cfg, sched, steps):
         if kind == "mgmt":
             m = ("(AddKey %s %d)" % (cbytes(bytes.fromhex(item["key"])), item["seq"]) if item["mgmt"] == "add_key" else
                  "(SetActive %d)" % item["seq"] if item["mgmt"] == "set_active" else "(RemoveKey %s)" % cbytes(bytes.fromhex(item["key"])))
-            items.append("(HMgmt %s, ObsNone, %d, %s)" % (m, r["active"], coq_ktables(r["ktables"])))
+            items.append("(HMgmt %s, ObsNone, %d, (Some %s))" % (m, r["active"], coq_ktables(r["ktables"])))
             continue
         d = r["in"]
         if d.get("nosec"):
@@ -564,7 +580,9 @@ def coq_history(cfg, sched, steps):
                 o = "(ObsUpSecured %d %s)" % (SVC[u["svc"]], coq_frame(u["dis"]))
             else:
                 o = "(ObsUpPlain %d %s)" % (SVC[u["svc"]], cbytes(bytes.fromhex(u["raw"])))
-        items.append("(HPdu %s, %s, %d, %s)" % (p, o, r["active"], coq_ktables(r["ktables"])))
+        # long many-sender histories: the (large) tables are compared after every 16th item and after the last three
+        kt = "None" if sparse and len(items) % 16 and len(items) < len(steps) - 3 else "(Some %s)" % coq_ktables(r["ktables"])
+        items.append("(HPdu %s, %s, %d, %s)" % (p, o, r["active"], kt))
     return "(%s, %s)" % (st, clist(items))
 
 
@@ -761,6 +779,21 @@ def run(ctx):
         if mgr == "aps" and inp is not None:    # right link key, wrong derivation input
             tam_cases.append({"mgr": mgr, "frame": fhex, "set": None, "steps": [{"op": "dec", "key": key, "inp": (inp + 1) % 3, "via": "bytes"}]})
             tam_meta.append({"kind": "wrong-input", "src": i, "orig": fhex})
+    # the SAME packet object decrypted under a wrong key first, then under the right key; and through ZigbeeDecryptor key rings
+    redec_cases, redec_meta, ring_reqs, ring_meta = [], [], [], []
+    for k, (i, fhex, low, key, inp, m) in enumerate(pool[:(400 if ctx.thorough else 30)]):
+        mgr = rt_cases[i]["mgr"]
+        wrong = rb(rng, 16).hex()
+        redec_cases.append({"mgr": mgr, "frame": fhex, "set": None,
+                            "steps": [{"op": "dec", "key": wrong, "inp": inp, "via": "bytes"}, {"op": "dec", "key": key, "inp": inp, "via": "obj"}]})
+        redec_meta.append({"src": i})
+        if mgr == "nwk" or inp in (0, 1, 2):
+            ring = [rb(rng, 16).hex() for _ in range(rng.choice([1, 1, 2]))] + ([key] if k % 5 else [])
+            if k % 5:       # reference: the key alone (the decryptor then dissects the payload, which may raise for arbitrary bytes)
+                ring_reqs.append({"mgr": mgr, "keys": [key], "frame": fhex})
+                ring_meta.append({"src": i, "has_key": True, "ref": None})
+            ring_reqs.append({"mgr": mgr, "keys": ring, "frame": fhex})
+            ring_meta.append({"src": i, "has_key": bool(k % 5), "ref": len(ring_reqs) - 2 if k % 5 else None})
     hist_reqs, hist_sched = [], []
     for p in plans:
         encs = []
@@ -802,12 +835,13 @@ def run(ctx):
             calls.insert(pos, dc); refs.insert(pos, ref)
         seq_reqs.append({"mgr": sp["mgr"], "key": sp["key"], "inp": sp["inp"], "calls": calls})
         seq_refs.append(refs)
-    req2 = {"crypt": tam_cases, "nwk": hist_reqs, "aps": aps_reqs, "seq": seq_reqs}
+    req2 = {"crypt": tam_cases + redec_cases, "nwk": hist_reqs, "aps": aps_reqs, "seq": seq_reqs, "ring": ring_reqs}
     r2 = C.run_impl("C17.py", req2)
     ctx.log("phase 2: %d tampered/wrong-key decrypts, %d NWK histories (%d frames)" % (len(tam_cases), len(hist_reqs), sum(len(h["frames"]) for h in hist_reqs)))
 
     # oracle: tamper evidence / wrong key
     tam_seen = 0
+    n_changed = 0
     for c, steps, m in zip(tam_cases, r2["crypt"], tam_meta):
         st = steps[0]
         case = {"op": "tamper", "mgr": c["mgr"], "frame": c["frame"], "steps": c["steps"], "kind": m["kind"], "bit": m.get("bit"), "original": m["orig"]}
@@ -827,6 +861,58 @@ def run(ctx):
         else:
             bump("outcome", "tamper-rejected")
             nontrivial.append(["tam", c["frame"], c["steps"][0]["key"]])
+            if st["out"].get("raw") != st["in"].get("raw"):
+                n_changed += 1
+                if n_changed <= 20:      # one replay file per case: the first 20 are enough
+                    nviol += ctx.violation("a rejected decryption changed the packet object", case, expected=st["in"].get("raw"), observed=st["out"].get("raw"))
+
+    # oracle: one packet object, wrong key first, then the right key
+    rdist = {"redec": 0, "ring-with-key": 0, "ring-without-key": 0}
+    for c, steps, m in zip(redec_cases, r2["crypt"][len(tam_cases):], redec_meta):
+        case = {"op": "roundtrip", "mgr": c["mgr"], "frame": c["frame"], "set": None, "steps": c["steps"], "tag": "wrong-key-then-right-key-same-object"}
+        add_terms(steps, ["dec", "dec"], ("redec", m["src"]))
+        exp = expected_plaintext(res_rt[m["src"]][0]["in"]).hex()
+        rdist["redec"] += 1
+        s0 = steps[0]
+        if "exc" in s0 or s0["status"] is not False:
+            nviol += ctx.violation("decryption under an unrelated key is not rejected", case, observed={k_: s0.get(k_) for k_ in ("exc", "status")})
+            continue
+        if s0["out"]["raw"] != s0["in"]["raw"]:
+            nviol += ctx.violation("a rejected decryption changed the packet object", case, expected=s0["in"]["raw"], observed=s0["out"]["raw"])
+        s1 = steps[1] if len(steps) > 1 else {"exc": "missing"}
+        if "exc" in s1 or s1["status"] is not True or s1["out"]["data"] != exp:
+            nviol += ctx.violation("after a failed decryption under another key, the same packet object is not decrypted under the right key", case,
+                                   expected={"status": True, "data": exp}, observed={"exc": s1.get("exc"), "status": s1.get("status"), "data": (s1.get("out") or {}).get("data")})
+        else:
+            nontrivial.append(["redec", c["frame"], c["steps"][0]["key"]])
+    ring_terms = []
+    for q, r, m in zip(ring_reqs, r2["ring"], ring_meta):
+        case = {"op": "ring", "ring": q}
+        exp = expected_plaintext(res_rt[m["src"]][0]["in"]).hex()
+        rdist["ring-with-key" if m["has_key"] else "ring-without-key"] += 1
+        if m.get("ref") is not None:
+            ref = r2["ring"][m["ref"]]
+            if (r.get("exc"), r.get("success"), r.get("object_data")) != (ref.get("exc"), ref.get("success"), ref.get("object_data")):
+                nviol += ctx.violation("ZigbeeDecryptor: wrong keys tried first on the same packet object change the result of the right key", case,
+                                       expected={k_: ref.get(k_) for k_ in ("exc", "success", "object_data")},
+                                       observed={k_: r.get(k_) for k_ in ("exc", "success", "object_data")})
+        if "exc" in r:
+            rdist["ring-payload-dissection-raised:" + r["exc"]] = rdist.get("ring-payload-dissection-raised:" + r["exc"], 0) + 1
+            continue
+        if m["has_key"]:
+            if not r["success"] or r.get("object_data") != exp:
+                nviol += ctx.violation("ZigbeeDecryptor with the right key behind wrong ones does not decrypt the frame", case,
+                                       expected={"success": True, "data": exp}, observed={"success": r["success"], "data": r.get("object_data")})
+        else:
+            if r["success"]:
+                nviol += ctx.violation("ZigbeeDecryptor without the key decrypts the frame", case, observed=r)
+            elif r["object_after"] != r["object_before"]:
+                nviol += ctx.violation("a rejected decryption changed the packet object", case, expected=r["object_before"], observed=r["object_after"])
+        if q["mgr"] == "nwk" and in_model(r["in"]):
+            ring_terms.append("(%s, %s, %s)" % (clist([cbytes(bytes.fromhex(k_)) for k_ in q["keys"]]), coq_frame(r["in"]),
+                                                 "(Some %s)" % cbytes(bytes.fromhex(r["object_data"])) if r["success"] else "None"))
+            nontrivial.append(["ring", q])
+    dist["same_object_under_several_keys"] = rdist
 
     # oracle: NWK histories
     hist_terms = []
@@ -899,7 +985,9 @@ def run(ctx):
                        "key-not-provisioned-dropped" if not genuine else "replay-dropped" if kind == "replay" else "old-dropped")
                 hdist[key] = hdist.get(key, 0) + 1
         if modelable:
-            hist_terms.append(coq_history(cfg, sched, steps))
+            hist_terms.append(coq_history(cfg, sched, steps, sparse=bool(p.get("many"))))
+            if p.get("many"):
+                hdist["many-senders-history:%d" % p["many"]] = 1
             nontrivial.append(["hist", cfg, hreq["frames"]])
     dist["nwk_history_events"] = hdist
 
@@ -1003,11 +1091,13 @@ def run(ctx):
             bad_k.append(-1)
     bad_a, logs_a = C.run_cases(PID, "apsdata", PRE, "bytes * N * bytes * bytes * option string", aps_terms, "check_aps_data")
     bad_k += ["aps-data:%d" % i for i in bad_a]
+    bad_rg, logs_rg = C.run_cases(PID, "ring", PRE, "list bytes * frame * option bytes", ring_terms, "check_ring", shard=40)
+    bad_k += ["key-ring:%d" % i for i in bad_rg]
     bad_sq, logs_sq = C.run_cases(PID, "seq", PRE, "bytes * list (bool * frame * bytes * obs)", seq_terms, "check_calls", shard=4)
     bad_k += ["instance-sequence:%d" % i for i in bad_sq]
     bad_ah, logs_ah = C.run_cases(PID, "apshist", PRE, "aps * list (nsdu * obs_aps)", aps_terms_h, "check_aps", shard=8)
     bad_k += ["aps-history:%d" % i for i in bad_ah]
-    bad_n, logs_n = C.run_cases(PID, "nwk", PRE, "hstate * list (hitem * obs_up * N * list (N * bytes * list (bytes * N)))", hist_terms, "check_nwk_mgmt", shard=4)
+    bad_n, logs_n = C.run_cases(PID, "nwk", PRE, "hstate * list (hitem * obs_up * N * option (list (N * bytes * list (bytes * N))))", hist_terms, "check_nwk_mgmt", shard=4)
     ctx.notes += logs_c[:2] + logs_h[:1] + logs_k[:1] + logs_n[:2]
     ctx.log("correspondence: crypt %d cases %d bad; hash %d/%d bad %d/%d; nwk histories %d bad %d; aps histories %d bad %d; instance sequences %d bad %d"
             % (len(crypt_terms), len(bad_c), len(hk_terms), len(hkk_terms), len(bad_h), len(bad_k), len(hist_terms), len(bad_n), len(aps_terms_h), len(bad_ah),
@@ -1079,6 +1169,8 @@ def replay(payload):
     elif case.get("op") == "aps-data-request":
         r = C.run_impl("C17.py", {"aps_data": [case["aps_data"]]})
         print("implementation now:", r["aps_data"][0])
+    elif case.get("op") == "ring":
+        print("implementation now:", C.run_impl("C17.py", {"ring": [case["ring"]]})["ring"][0])
     elif case.get("op") == "seq":
         r = C.run_impl("C17.py", {"seq": [case["seq"]]})
         for k, st in enumerate(r["seq"][0]):
